@@ -99,6 +99,9 @@ def evaluate(case, chk):
         rng = Rng(case.get("cseed", 1), "cfg")
         case["configs"] = gen_configs(rng, pilot.goroutines, case.get("nconf", 6), sweep=case.get("sweep", False),
                                       batches=case.get("batches"))
+        if case.get("force_preempt"):
+            for c in case["configs"]:
+                c["sched"]["preempt"] = rng.choice(case["force_preempt"])
         for k, fl in enumerate(case.get("force_flags") or []):
             if k < len(case["configs"]):
                 case["configs"][k]["flags"] = list(fl)
@@ -293,8 +296,9 @@ def cases(rng, tier):
     streams.append(gen.tail_cases(rng.fork("tail"), tier))
     streams.append(gen.seed_cases(rng.fork("seed"), tier))
     streams.append(gen.hash_cases(rng.fork("hash"), tier))
+    streams.append(gen.race_cases(rng.fork("race"), tier))
     if only:
-        streams = [st for st, nm in zip(streams, ["corpus", "chains", "term", "tail", "seed", "hash"]) if nm in only.split(",")]
+        streams = [st for st, nm in zip(streams, ["corpus", "chains", "term", "tail", "seed", "hash", "race"]) if nm in only.split(",")]
     return interleave(*streams)
 
 
